@@ -7,6 +7,7 @@ Local Open Scope Z_scope.
 
 Local Ltac Zify.zify_post_hook ::= Z.div_mod_to_equations.
 Local Opaque q.
+Set Default Timeout 60.
 
 (* ------------------------------------------------------------------ *)
 (** * One CIOS round, pure arithmetic
@@ -110,6 +111,10 @@ Proof.
   destruct (madd3 _ q3 c0''' c2' c1''') as [t3' t2'].
   reflexivity.
 Qed.
+
+(* From here on mulGeneric is only used through [mulGeneric_rounds]; unfolding
+   it on symbolic operands (by the unifier or by the kernel at Qed) explodes. *)
+Local Opaque mulGeneric.
 
 (* ------------------------------------------------------------------ *)
 (** * Correctness of one round *)
@@ -311,14 +316,17 @@ Theorem toMont_correct : forall z, canon z ->
 Proof. intros z Hz. apply toMont_correct_gen. apply canon_limbs. exact Hz. Qed.
 Print Assumptions toMont_correct.
 
+Lemma val_word : forall v, val (v, 0, 0, 0) = v.
+Proof. intros v. rewrite val_eq. ring. Qed.
+
 Theorem setUint64_correct : forall v, u64 v ->
   canon (setUint64 v) /\ mval (setUint64 v) = v mod q.
 Proof.
   intros v Hv.
-  assert (Hl : limbs_ok (v, 0, 0, 0)) by (cbn; unfold u64, W in *; repeat split; lia).
-  destruct (toMont_correct_gen (v, 0, 0, 0) Hl) as [H1 H2].
-  unfold setUint64. unfold toMont in H1, H2. split; [ exact H1 | ].
-  rewrite H2. f_equal. rewrite val_eq. ring.
+  assert (Hl : limbs_ok (v, 0, 0, 0)).
+  { unfold limbs_ok. unfold u64, W in *. repeat split; lia. }
+  pose proof (toMont_correct_gen (v, 0, 0, 0) Hl) as H.
+  rewrite val_word in H. exact H.
 Qed.
 Print Assumptions setUint64_correct.
 
